@@ -86,6 +86,17 @@ fn main() {
         let seed = std::env::args().nth(2).and_then(|s| s.parse().ok()).unwrap_or(1);
         std::process::exit(props::sanit::run(seed));
     }
+    // self-test of the per-case CPU watchdog: arm it repeatedly (as consecutive cases do), then
+    // spin; the process must be killed by SIGXCPU a few seconds after the LAST arming
+    if std::env::args().nth(1).as_deref() == Some("selftest-watchdog") {
+        for _ in 0..5 {
+            let t = cpu::process_cpu_ns();
+            while cpu::process_cpu_ns() - t < 700_000_000 {}
+            cpu::arm_case_limit(2);
+        }
+        eprintln!("armed 5 times over ~3.5 s of CPU; spinning");
+        loop {}
+    }
     let args = parse_args();
     panicmon::install();
     // CPU watchdog of last resort (a pure CPU loop that no stream budget can cut)
